@@ -19,3 +19,49 @@ def ensure_jax_tfp_compat() -> None:
     xla_interpreter = jax.interpreters.xla
     if not hasattr(xla_interpreter, "pytype_aval_mappings"):
         xla_interpreter.pytype_aval_mappings = jax.core.pytype_aval_mappings
+
+
+def get_aval(x):
+    """Abstract value of ``x`` (``jax.core.get_aval`` was replaced by ``jax.typeof``)."""
+    core = jax._src.core
+    fn = getattr(core, "get_aval", None) or getattr(core, "typeof")
+    return fn(x)
+
+
+def var_id(var) -> int:
+    """Stable identifier for a Jaxpr variable (``Var.count`` was removed in newer JAX)."""
+    count = getattr(var, "count", None)
+    return id(var) if count is None else count
+
+
+def is_drop_var(var) -> bool:
+    return isinstance(var, jax._src.core.DropVar)
+
+
+def get_bind_params(primitive, params):
+    """Return ``(subfuns, bind_params)`` across JAX versions.
+
+    Older JAX returns the pair directly; newer JAX returns a single params dict
+    carrying callables under the ``subfuns`` key.
+    """
+    out = primitive.get_bind_params(params)
+    if isinstance(out, dict):
+        return [], out
+    subfuns, bind_params = out
+    return list(subfuns), bind_params
+
+
+def scan_num_consts_carry(params) -> tuple[int, int]:
+    """``(num_consts, num_carry)`` of a ``scan_p`` equation across JAX versions."""
+    if "num_consts" in params:
+        return params["num_consts"], params["num_carry"]
+    consts, carry, _ = params["ft_in"].unpack()
+    return len(consts), len(carry)
+
+
+def zero_tangent_from_primal(v):
+    """Symbolic zero tangent for primal ``v`` (``Zero.from_primal_value`` was removed)."""
+    from jax._src import ad_util
+
+    ctor = getattr(ad_util.Zero, "from_primal_value", None) or ad_util.p2tz
+    return ctor(v)
